@@ -147,6 +147,10 @@ def ocean_floor(
             # Then find the ocean floor indexes.
             ocean_floor_indexes = _find_ocean_floor_indexes(
                 data_array, depth_dimension)
+            # The indexes are a dask array if the dataset is lazily loaded,
+            # such as a clipped or multi-file dataset.
+            # xarray can not index using dask arrays.
+            ocean_floor_indexes = ocean_floor_indexes.compute()
 
             # Extract just the variables with these spatial coordinates
             dataset_subset = utils.extract_vars(dataset, variable_names)
